@@ -69,6 +69,7 @@ func genSessPlan(t *rapid.T, n int) sessPlan {
 	p.status = mk("status", 80)
 	p.bookmark = mk("bookmark", 80)
 	p.unknown = mk("unknown", 40)
+	p.errobj = mk("errobj", 40)
 	p.drop = mk("drop", 150)
 	p.dup = mk("dup", 150)
 	if rapid.IntRange(0, 3).Draw(t, "closes") == 0 {
@@ -331,7 +332,7 @@ func TestC03_Relists(t *testing.T) {
 					faults["connect_error"] = true
 				}
 				a.mu.Unlock()
-				for name, m := range map[string]map[int]bool{"status_frame": p.status, "bookmark_frame": p.bookmark, "unknown_type_frame": p.unknown, "dropped_event": p.drop, "duplicated_event": p.dup} {
+				for name, m := range map[string]map[int]bool{"status_frame": p.status, "bookmark_frame": p.bookmark, "unknown_type_frame": p.unknown, "error_frame_with_object_payload": p.errobj, "dropped_event": p.drop, "duplicated_event": p.dup} {
 					if len(m) > 0 {
 						faults[name] = true
 					}
